@@ -1,6 +1,70 @@
 #![allow(unused, non_snake_case, non_upper_case_globals)]
 use vstd::prelude::*;
 verus! {
+// ---- include lib/stdspecs.vrs ----
+// Specifications of core integer methods that vstd 0.2026.09.13 does not provide (trusted; each mirrors the std documentation).
+// Included by every unit so that an edited body that starts using one of them is still decided.
+pub assume_specification[ i8::div_euclid ](x: i8, y: i8) -> (r: i8) requires y != 0, !(x == i8::MIN && y == -1), ensures y > 0 ==> r as int == (x as int) / (y as int);
+pub assume_specification[ i8::rem_euclid ](x: i8, y: i8) -> (r: i8) requires y != 0, !(x == i8::MIN && y == -1), ensures y > 0 ==> r as int == (x as int) % (y as int), y < 0 ==> r as int == (x as int) % (-(y as int));
+pub assume_specification[ i8::abs ](x: i8) -> (r: i8) requires x != i8::MIN, ensures r as int == (if x < 0 { -(x as int) } else { x as int });
+pub assume_specification[ i8::signum ](x: i8) -> (r: i8) ensures r == (if x > 0 { 1int } else if x < 0 { -1int } else { 0int });
+pub assume_specification[ i8::is_positive ](x: i8) -> (r: bool) ensures r == (x > 0);
+pub assume_specification[ i8::is_negative ](x: i8) -> (r: bool) ensures r == (x < 0);
+pub assume_specification[ i8::checked_neg ](x: i8) -> (r: Option<i8>) ensures x == i8::MIN ==> r.is_none(), x != i8::MIN ==> r == Some((-x) as i8);
+pub assume_specification[ i8::saturating_add ](x: i8, y: i8) -> (r: i8) ensures i8::MIN <= x + y <= i8::MAX ==> r == x + y, x + y > i8::MAX ==> r == i8::MAX, x + y < i8::MIN ==> r == i8::MIN;
+pub assume_specification[ i8::saturating_sub ](x: i8, y: i8) -> (r: i8) ensures i8::MIN <= x - y <= i8::MAX ==> r == x - y, x - y > i8::MAX ==> r == i8::MAX, x - y < i8::MIN ==> r == i8::MIN;
+pub assume_specification[ i8::saturating_neg ](x: i8) -> (r: i8) ensures x == i8::MIN ==> r == i8::MAX, x != i8::MIN ==> r == -x;
+pub assume_specification[ i8::unsigned_abs ](x: i8) -> (r: u8) ensures r as int == (if x < 0 { -(x as int) } else { x as int });
+pub assume_specification[ i8::checked_abs ](x: i8) -> (r: Option<i8>) ensures x == i8::MIN ==> r.is_none(), x != i8::MIN ==> r == Some((if x < 0 { -x } else { x as int }) as i8);
+pub assume_specification[ i16::div_euclid ](x: i16, y: i16) -> (r: i16) requires y != 0, !(x == i16::MIN && y == -1), ensures y > 0 ==> r as int == (x as int) / (y as int);
+pub assume_specification[ i16::rem_euclid ](x: i16, y: i16) -> (r: i16) requires y != 0, !(x == i16::MIN && y == -1), ensures y > 0 ==> r as int == (x as int) % (y as int), y < 0 ==> r as int == (x as int) % (-(y as int));
+pub assume_specification[ i16::abs ](x: i16) -> (r: i16) requires x != i16::MIN, ensures r as int == (if x < 0 { -(x as int) } else { x as int });
+pub assume_specification[ i16::signum ](x: i16) -> (r: i16) ensures r == (if x > 0 { 1int } else if x < 0 { -1int } else { 0int });
+pub assume_specification[ i16::is_positive ](x: i16) -> (r: bool) ensures r == (x > 0);
+pub assume_specification[ i16::is_negative ](x: i16) -> (r: bool) ensures r == (x < 0);
+pub assume_specification[ i16::checked_neg ](x: i16) -> (r: Option<i16>) ensures x == i16::MIN ==> r.is_none(), x != i16::MIN ==> r == Some((-x) as i16);
+pub assume_specification[ i16::saturating_add ](x: i16, y: i16) -> (r: i16) ensures i16::MIN <= x + y <= i16::MAX ==> r == x + y, x + y > i16::MAX ==> r == i16::MAX, x + y < i16::MIN ==> r == i16::MIN;
+pub assume_specification[ i16::saturating_sub ](x: i16, y: i16) -> (r: i16) ensures i16::MIN <= x - y <= i16::MAX ==> r == x - y, x - y > i16::MAX ==> r == i16::MAX, x - y < i16::MIN ==> r == i16::MIN;
+pub assume_specification[ i16::saturating_neg ](x: i16) -> (r: i16) ensures x == i16::MIN ==> r == i16::MAX, x != i16::MIN ==> r == -x;
+pub assume_specification[ i16::unsigned_abs ](x: i16) -> (r: u16) ensures r as int == (if x < 0 { -(x as int) } else { x as int });
+pub assume_specification[ i16::checked_abs ](x: i16) -> (r: Option<i16>) ensures x == i16::MIN ==> r.is_none(), x != i16::MIN ==> r == Some((if x < 0 { -x } else { x as int }) as i16);
+pub assume_specification[ i32::div_euclid ](x: i32, y: i32) -> (r: i32) requires y != 0, !(x == i32::MIN && y == -1), ensures y > 0 ==> r as int == (x as int) / (y as int);
+pub assume_specification[ i32::rem_euclid ](x: i32, y: i32) -> (r: i32) requires y != 0, !(x == i32::MIN && y == -1), ensures y > 0 ==> r as int == (x as int) % (y as int), y < 0 ==> r as int == (x as int) % (-(y as int));
+pub assume_specification[ i32::abs ](x: i32) -> (r: i32) requires x != i32::MIN, ensures r as int == (if x < 0 { -(x as int) } else { x as int });
+pub assume_specification[ i32::signum ](x: i32) -> (r: i32) ensures r == (if x > 0 { 1int } else if x < 0 { -1int } else { 0int });
+pub assume_specification[ i32::is_positive ](x: i32) -> (r: bool) ensures r == (x > 0);
+pub assume_specification[ i32::is_negative ](x: i32) -> (r: bool) ensures r == (x < 0);
+pub assume_specification[ i32::checked_neg ](x: i32) -> (r: Option<i32>) ensures x == i32::MIN ==> r.is_none(), x != i32::MIN ==> r == Some((-x) as i32);
+pub assume_specification[ i32::saturating_add ](x: i32, y: i32) -> (r: i32) ensures i32::MIN <= x + y <= i32::MAX ==> r == x + y, x + y > i32::MAX ==> r == i32::MAX, x + y < i32::MIN ==> r == i32::MIN;
+pub assume_specification[ i32::saturating_sub ](x: i32, y: i32) -> (r: i32) ensures i32::MIN <= x - y <= i32::MAX ==> r == x - y, x - y > i32::MAX ==> r == i32::MAX, x - y < i32::MIN ==> r == i32::MIN;
+pub assume_specification[ i32::saturating_neg ](x: i32) -> (r: i32) ensures x == i32::MIN ==> r == i32::MAX, x != i32::MIN ==> r == -x;
+pub assume_specification[ i32::unsigned_abs ](x: i32) -> (r: u32) ensures r as int == (if x < 0 { -(x as int) } else { x as int });
+pub assume_specification[ i32::checked_abs ](x: i32) -> (r: Option<i32>) ensures x == i32::MIN ==> r.is_none(), x != i32::MIN ==> r == Some((if x < 0 { -x } else { x as int }) as i32);
+pub assume_specification[ i64::div_euclid ](x: i64, y: i64) -> (r: i64) requires y != 0, !(x == i64::MIN && y == -1), ensures y > 0 ==> r as int == (x as int) / (y as int);
+pub assume_specification[ i64::rem_euclid ](x: i64, y: i64) -> (r: i64) requires y != 0, !(x == i64::MIN && y == -1), ensures y > 0 ==> r as int == (x as int) % (y as int), y < 0 ==> r as int == (x as int) % (-(y as int));
+pub assume_specification[ i64::abs ](x: i64) -> (r: i64) requires x != i64::MIN, ensures r as int == (if x < 0 { -(x as int) } else { x as int });
+pub assume_specification[ i64::signum ](x: i64) -> (r: i64) ensures r == (if x > 0 { 1int } else if x < 0 { -1int } else { 0int });
+pub assume_specification[ i64::is_positive ](x: i64) -> (r: bool) ensures r == (x > 0);
+pub assume_specification[ i64::is_negative ](x: i64) -> (r: bool) ensures r == (x < 0);
+pub assume_specification[ i64::checked_neg ](x: i64) -> (r: Option<i64>) ensures x == i64::MIN ==> r.is_none(), x != i64::MIN ==> r == Some((-x) as i64);
+pub assume_specification[ i64::saturating_add ](x: i64, y: i64) -> (r: i64) ensures i64::MIN <= x + y <= i64::MAX ==> r == x + y, x + y > i64::MAX ==> r == i64::MAX, x + y < i64::MIN ==> r == i64::MIN;
+pub assume_specification[ i64::saturating_sub ](x: i64, y: i64) -> (r: i64) ensures i64::MIN <= x - y <= i64::MAX ==> r == x - y, x - y > i64::MAX ==> r == i64::MAX, x - y < i64::MIN ==> r == i64::MIN;
+pub assume_specification[ i64::saturating_neg ](x: i64) -> (r: i64) ensures x == i64::MIN ==> r == i64::MAX, x != i64::MIN ==> r == -x;
+pub assume_specification[ i64::unsigned_abs ](x: i64) -> (r: u64) ensures r as int == (if x < 0 { -(x as int) } else { x as int });
+pub assume_specification[ i64::checked_abs ](x: i64) -> (r: Option<i64>) ensures x == i64::MIN ==> r.is_none(), x != i64::MIN ==> r == Some((if x < 0 { -x } else { x as int }) as i64);
+pub assume_specification[ i128::div_euclid ](x: i128, y: i128) -> (r: i128) requires y != 0, !(x == i128::MIN && y == -1), ensures y > 0 ==> r as int == (x as int) / (y as int);
+pub assume_specification[ i128::rem_euclid ](x: i128, y: i128) -> (r: i128) requires y != 0, !(x == i128::MIN && y == -1), ensures y > 0 ==> r as int == (x as int) % (y as int), y < 0 ==> r as int == (x as int) % (-(y as int));
+pub assume_specification[ i128::abs ](x: i128) -> (r: i128) requires x != i128::MIN, ensures r as int == (if x < 0 { -(x as int) } else { x as int });
+pub assume_specification[ i128::signum ](x: i128) -> (r: i128) ensures r == (if x > 0 { 1int } else if x < 0 { -1int } else { 0int });
+pub assume_specification[ i128::is_positive ](x: i128) -> (r: bool) ensures r == (x > 0);
+pub assume_specification[ i128::is_negative ](x: i128) -> (r: bool) ensures r == (x < 0);
+pub assume_specification[ i128::checked_neg ](x: i128) -> (r: Option<i128>) ensures x == i128::MIN ==> r.is_none(), x != i128::MIN ==> r == Some((-x) as i128);
+pub assume_specification[ i128::saturating_add ](x: i128, y: i128) -> (r: i128) ensures i128::MIN <= x + y <= i128::MAX ==> r == x + y, x + y > i128::MAX ==> r == i128::MAX, x + y < i128::MIN ==> r == i128::MIN;
+pub assume_specification[ i128::saturating_sub ](x: i128, y: i128) -> (r: i128) ensures i128::MIN <= x - y <= i128::MAX ==> r == x - y, x - y > i128::MAX ==> r == i128::MAX, x - y < i128::MIN ==> r == i128::MIN;
+pub assume_specification[ i128::saturating_neg ](x: i128) -> (r: i128) ensures x == i128::MIN ==> r == i128::MAX, x != i128::MIN ==> r == -x;
+pub assume_specification[ i128::unsigned_abs ](x: i128) -> (r: u128) ensures r as int == (if x < 0 { -(x as int) } else { x as int });
+pub assume_specification[ i128::checked_abs ](x: i128) -> (r: Option<i128>) ensures x == i128::MIN ==> r.is_none(), x != i128::MIN ==> r == Some((if x < 0 { -x } else { x as int }) as i128);
+
 // ---- include lib/rangeint.vrs ----
 // GENERATED by lib/gen_rangeint.py -- the rangeint model (T2).  Do not edit by hand.
 use vstd::std_specs::cmp::*;
@@ -6157,8 +6221,7 @@ impl TryRInto_SpanZoneOffset for ri128 {
 }
 
 // ---- std integer methods without a vstd spec (trusted; documented std behaviour) ----
-pub assume_specification[ i64::signum ](x: i64) -> (r: i64)
-    ensures r == (if x > 0 { 1int } else if x < 0 { -1int } else { 0int });
+// (std spec moved to lib/stdspecs.vrs: i64::signum)
 
 // ---- C12 specification ------------------------------------------------------------------------------------------
 /// discriminant of a unit = its bit in UnitSet = its rank in the derived order
@@ -6527,6 +6590,7 @@ pub enum Unit {
 
 impl Unit {
 // @fn Unit::from_usize @src src/span.rs:4249
+#[verifier::spinoff_prover]
 pub fn from_usize(n: usize) -> (r: Option<Unit>)
     ensures
         r == unit_of_rank(n as int), r is Some ==> unit_rank(r->0) == n,
@@ -6552,6 +6616,7 @@ pub struct UnitSet(pub u16);
 
 impl UnitSet {
 // @fn UnitSet::empty @src src/span.rs:5755
+#[verifier::spinoff_prover]
 
     pub fn empty() -> (r: UnitSet)
     ensures
@@ -6563,6 +6628,7 @@ impl UnitSet {
     }
 
 // @fn UnitSet::set @src src/span.rs:5764
+#[verifier::spinoff_prover]
 
     pub fn set(self, unit: Unit, is_zero: bool) -> (r: UnitSet)
     ensures
@@ -6579,6 +6645,7 @@ impl UnitSet {
     }
 
 // @fn UnitSet::is_empty @src src/span.rs:5775
+#[verifier::spinoff_prover]
 
     pub fn is_empty(&self) -> (r: bool)
     ensures
@@ -6590,6 +6657,7 @@ impl UnitSet {
     }
 
 // @fn UnitSet::contains_only @src src/span.rs:5782
+#[verifier::spinoff_prover]
 
     pub fn contains_only(self, unit: Unit) -> (r: bool)
     ensures
@@ -6601,6 +6669,7 @@ impl UnitSet {
     }
 
 // @fn UnitSet::only_calendar @src src/span.rs:5788
+#[verifier::spinoff_prover]
 
     pub fn only_calendar(self) -> (r: UnitSet)
     ensures
@@ -6612,6 +6681,7 @@ impl UnitSet {
     }
 
 // @fn UnitSet::only_time @src src/span.rs:5794
+#[verifier::spinoff_prover]
 
     pub fn only_time(self) -> (r: UnitSet)
     ensures
@@ -6623,6 +6693,7 @@ impl UnitSet {
     }
 
 // @fn UnitSet::largest_unit @src src/span.rs:5800
+#[verifier::spinoff_prover]
 
     pub fn largest_unit(self) -> (r: Option<Unit>)
     requires
@@ -6678,6 +6749,7 @@ impl Default for Span {
 
 impl Span {
 // @fn Span::new @src src/span.rs:733
+#[verifier::spinoff_prover]
 pub fn new() -> (r: Span)
     ensures
         r.wf(), r.view() == sv_zero(),
@@ -6688,6 +6760,7 @@ pub fn new() -> (r: Span)
 
 impl Span {
 // @fn Span::get_sign_ranged @src src/span.rs:2707
+#[verifier::spinoff_prover]
 
     pub fn get_sign_ranged(&self) -> (r: Sign)
     requires
@@ -6703,6 +6776,7 @@ impl Span {
 
 impl Span {
 // @fn Span::get_years_ranged @src src/span.rs:2657
+#[verifier::spinoff_prover]
 
     pub fn get_years_ranged(&self) -> (r: SpanYears)
     requires
@@ -6718,6 +6792,7 @@ impl Span {
 
 impl Span {
 // @fn Span::get_months_ranged @src src/span.rs:2662
+#[verifier::spinoff_prover]
 
     pub fn get_months_ranged(&self) -> (r: SpanMonths)
     requires
@@ -6733,6 +6808,7 @@ impl Span {
 
 impl Span {
 // @fn Span::get_weeks_ranged @src src/span.rs:2667
+#[verifier::spinoff_prover]
 
     pub fn get_weeks_ranged(&self) -> (r: SpanWeeks)
     requires
@@ -6748,6 +6824,7 @@ impl Span {
 
 impl Span {
 // @fn Span::get_days_ranged @src src/span.rs:2672
+#[verifier::spinoff_prover]
 
     pub fn get_days_ranged(&self) -> (r: SpanDays)
     requires
@@ -6763,6 +6840,7 @@ impl Span {
 
 impl Span {
 // @fn Span::get_hours_ranged @src src/span.rs:2677
+#[verifier::spinoff_prover]
 
     pub fn get_hours_ranged(&self) -> (r: SpanHours)
     requires
@@ -6778,6 +6856,7 @@ impl Span {
 
 impl Span {
 // @fn Span::get_minutes_ranged @src src/span.rs:2682
+#[verifier::spinoff_prover]
 
     pub fn get_minutes_ranged(&self) -> (r: SpanMinutes)
     requires
@@ -6793,6 +6872,7 @@ impl Span {
 
 impl Span {
 // @fn Span::get_seconds_ranged @src src/span.rs:2687
+#[verifier::spinoff_prover]
 
     pub fn get_seconds_ranged(&self) -> (r: SpanSeconds)
     requires
@@ -6808,6 +6888,7 @@ impl Span {
 
 impl Span {
 // @fn Span::get_milliseconds_ranged @src src/span.rs:2692
+#[verifier::spinoff_prover]
 
     pub fn get_milliseconds_ranged(&self) -> (r: SpanMilliseconds)
     requires
@@ -6823,6 +6904,7 @@ impl Span {
 
 impl Span {
 // @fn Span::get_microseconds_ranged @src src/span.rs:2697
+#[verifier::spinoff_prover]
 
     pub fn get_microseconds_ranged(&self) -> (r: SpanMicroseconds)
     requires
@@ -6838,6 +6920,7 @@ impl Span {
 
 impl Span {
 // @fn Span::get_nanoseconds_ranged @src src/span.rs:2702
+#[verifier::spinoff_prover]
 
     pub fn get_nanoseconds_ranged(&self) -> (r: SpanNanoseconds)
     requires
@@ -6853,6 +6936,7 @@ impl Span {
 
 impl Span {
 // @fn Span::get_years @src src/span.rs:1097
+#[verifier::spinoff_prover]
 
     pub fn get_years(&self) -> (r: i16)
     requires
@@ -6866,6 +6950,7 @@ impl Span {
 
 impl Span {
 // @fn Span::get_months @src src/span.rs:1119
+#[verifier::spinoff_prover]
 
     pub fn get_months(&self) -> (r: i32)
     requires
@@ -6879,6 +6964,7 @@ impl Span {
 
 impl Span {
 // @fn Span::get_weeks @src src/span.rs:1141
+#[verifier::spinoff_prover]
 
     pub fn get_weeks(&self) -> (r: i32)
     requires
@@ -6892,6 +6978,7 @@ impl Span {
 
 impl Span {
 // @fn Span::get_days @src src/span.rs:1165
+#[verifier::spinoff_prover]
 
     pub fn get_days(&self) -> (r: i32)
     requires
@@ -6905,6 +6992,7 @@ impl Span {
 
 impl Span {
 // @fn Span::get_hours @src src/span.rs:1187
+#[verifier::spinoff_prover]
 
     pub fn get_hours(&self) -> (r: i32)
     requires
@@ -6918,6 +7006,7 @@ impl Span {
 
 impl Span {
 // @fn Span::get_minutes @src src/span.rs:1209
+#[verifier::spinoff_prover]
 
     pub fn get_minutes(&self) -> (r: i64)
     requires
@@ -6931,6 +7020,7 @@ impl Span {
 
 impl Span {
 // @fn Span::get_seconds @src src/span.rs:1231
+#[verifier::spinoff_prover]
 
     pub fn get_seconds(&self) -> (r: i64)
     requires
@@ -6944,6 +7034,7 @@ impl Span {
 
 impl Span {
 // @fn Span::get_milliseconds @src src/span.rs:1253
+#[verifier::spinoff_prover]
 
     pub fn get_milliseconds(&self) -> (r: i64)
     requires
@@ -6957,6 +7048,7 @@ impl Span {
 
 impl Span {
 // @fn Span::get_microseconds @src src/span.rs:1275
+#[verifier::spinoff_prover]
 
     pub fn get_microseconds(&self) -> (r: i64)
     requires
@@ -6970,6 +7062,7 @@ impl Span {
 
 impl Span {
 // @fn Span::get_nanoseconds @src src/span.rs:1297
+#[verifier::spinoff_prover]
 
     pub fn get_nanoseconds(&self) -> (r: i64)
     requires
@@ -6983,6 +7076,7 @@ impl Span {
 
 impl Span {
 // @fn Span::get_units_ranged @src src/span.rs:2712
+#[verifier::spinoff_prover]
 
     pub fn get_units_ranged(&self, unit: Unit) -> (r: NoUnits)
     requires
@@ -7007,6 +7101,7 @@ impl Span {
 
 impl Span {
 // @fn Span::is_zero @src src/span.rs:1417
+#[verifier::spinoff_prover]
 
     pub fn is_zero(self) -> (r: bool)
     requires
@@ -7020,6 +7115,7 @@ impl Span {
 
 impl Span {
 // @fn Span::signum @src src/span.rs:1365
+#[verifier::spinoff_prover]
 
     pub fn signum(self) -> (r: i8)
     requires
@@ -7033,6 +7129,7 @@ impl Span {
 
 impl Span {
 // @fn Span::is_positive @src src/span.rs:1382
+#[verifier::spinoff_prover]
 
     pub fn is_positive(self) -> (r: bool)
     requires
@@ -7046,6 +7143,7 @@ impl Span {
 
 impl Span {
 // @fn Span::is_negative @src src/span.rs:1399
+#[verifier::spinoff_prover]
 
     pub fn is_negative(self) -> (r: bool)
     requires
@@ -7059,6 +7157,7 @@ impl Span {
 
 impl Span {
 // @fn Span::negate @src src/span.rs:1356
+#[verifier::spinoff_prover]
 
     pub fn negate(self) -> (r: Span)
     requires
@@ -7072,6 +7171,7 @@ impl Span {
 
 impl Span {
 // @fn Span::abs @src src/span.rs:1319
+#[verifier::spinoff_prover]
 
     pub fn abs(self) -> (r: Span)
     requires
@@ -7088,6 +7188,7 @@ impl Span {
 
 impl Span {
 // @fn Span::years_ranged @src src/span.rs:2485
+#[verifier::spinoff_prover]
 
     pub fn verif_try_rinto_arg_years_ranged(value: NoUnits) -> (res: Result<SpanYears, Error>) ensures res.is_ok() <==> in_SpanYears(value.val as int), res.is_ok() ==> res.unwrap().val == value.val { verif_try_rfrom_SpanYears_64(value) } pub fn years_ranged(self, years: SpanYears) -> (r: Span)
     requires
@@ -7106,6 +7207,7 @@ impl Span {
 
 impl Span {
 // @fn Span::months_ranged @src src/span.rs:2493
+#[verifier::spinoff_prover]
 
     pub fn verif_try_rinto_arg_months_ranged(value: NoUnits) -> (res: Result<SpanMonths, Error>) ensures res.is_ok() <==> in_SpanMonths(value.val as int), res.is_ok() ==> res.unwrap().val == value.val { verif_try_rfrom_SpanMonths_64(value) } pub fn months_ranged(self, months: SpanMonths) -> (r: Span)
     requires
@@ -7124,6 +7226,7 @@ impl Span {
 
 impl Span {
 // @fn Span::weeks_ranged @src src/span.rs:2501
+#[verifier::spinoff_prover]
 
     pub fn verif_try_rinto_arg_weeks_ranged(value: NoUnits) -> (res: Result<SpanWeeks, Error>) ensures res.is_ok() <==> in_SpanWeeks(value.val as int), res.is_ok() ==> res.unwrap().val == value.val { verif_try_rfrom_SpanWeeks_64(value) } pub fn weeks_ranged(self, weeks: SpanWeeks) -> (r: Span)
     requires
@@ -7142,6 +7245,7 @@ impl Span {
 
 impl Span {
 // @fn Span::days_ranged @src src/span.rs:2509
+#[verifier::spinoff_prover]
 
     pub fn verif_try_rinto_arg_days_ranged(value: NoUnits) -> (res: Result<SpanDays, Error>) ensures res.is_ok() <==> in_SpanDays(value.val as int), res.is_ok() ==> res.unwrap().val == value.val { verif_try_rfrom_SpanDays_64(value) } pub fn days_ranged(self, days: SpanDays) -> (r: Span)
     requires
@@ -7160,6 +7264,7 @@ impl Span {
 
 impl Span {
 // @fn Span::hours_ranged @src src/span.rs:2517
+#[verifier::spinoff_prover]
 
     pub fn verif_try_rinto_arg_hours_ranged(value: NoUnits) -> (res: Result<SpanHours, Error>) ensures res.is_ok() <==> in_SpanHours(value.val as int), res.is_ok() ==> res.unwrap().val == value.val { verif_try_rfrom_SpanHours_64(value) } pub fn hours_ranged(self, hours: SpanHours) -> (r: Span)
     requires
@@ -7178,6 +7283,7 @@ impl Span {
 
 impl Span {
 // @fn Span::minutes_ranged @src src/span.rs:2525
+#[verifier::spinoff_prover]
 
     pub fn verif_try_rinto_arg_minutes_ranged(value: NoUnits) -> (res: Result<SpanMinutes, Error>) ensures res.is_ok() <==> in_SpanMinutes(value.val as int), res.is_ok() ==> res.unwrap().val == value.val { verif_try_rfrom_SpanMinutes_64(value) } pub fn minutes_ranged(self, minutes: SpanMinutes) -> (r: Span)
     requires
@@ -7196,6 +7302,7 @@ impl Span {
 
 impl Span {
 // @fn Span::seconds_ranged @src src/span.rs:2533
+#[verifier::spinoff_prover]
 
     pub fn verif_try_rinto_arg_seconds_ranged(value: NoUnits) -> (res: Result<SpanSeconds, Error>) ensures res.is_ok() <==> in_SpanSeconds(value.val as int), res.is_ok() ==> res.unwrap().val == value.val { verif_try_rfrom_SpanSeconds_64(value) } pub fn seconds_ranged(self, seconds: SpanSeconds) -> (r: Span)
     requires
@@ -7214,6 +7321,7 @@ impl Span {
 
 impl Span {
 // @fn Span::milliseconds_ranged @src src/span.rs:2541
+#[verifier::spinoff_prover]
 
     pub fn verif_try_rinto_arg_milliseconds_ranged(value: NoUnits) -> (res: Result<SpanMilliseconds, Error>) ensures res.is_ok() <==> in_SpanMilliseconds(value.val as int), res.is_ok() ==> res.unwrap().val == value.val { verif_try_rfrom_SpanMilliseconds_64(value) } pub fn milliseconds_ranged(self, milliseconds: SpanMilliseconds) -> (r: Span)
     requires
@@ -7232,6 +7340,7 @@ impl Span {
 
 impl Span {
 // @fn Span::microseconds_ranged @src src/span.rs:2549
+#[verifier::spinoff_prover]
 
     pub fn verif_try_rinto_arg_microseconds_ranged(value: NoUnits) -> (res: Result<SpanMicroseconds, Error>) ensures res.is_ok() <==> in_SpanMicroseconds(value.val as int), res.is_ok() ==> res.unwrap().val == value.val { verif_try_rfrom_SpanMicroseconds_64(value) } pub fn microseconds_ranged(self, microseconds: SpanMicroseconds) -> (r: Span)
     requires
@@ -7250,6 +7359,7 @@ impl Span {
 
 impl Span {
 // @fn Span::nanoseconds_ranged @src src/span.rs:2557
+#[verifier::spinoff_prover]
 
     pub fn verif_try_rinto_arg_nanoseconds_ranged(value: NoUnits) -> (res: Result<SpanNanoseconds, Error>) ensures res.is_ok() <==> in_SpanNanoseconds(value.val as int), res.is_ok() ==> res.unwrap().val == value.val { verif_try_rfrom_SpanNanoseconds_64(value) } pub fn nanoseconds_ranged(self, nanoseconds: SpanNanoseconds) -> (r: Span)
     requires
@@ -7268,6 +7378,7 @@ impl Span {
 
 impl Span {
 // @fn Span::try_years @src src/span.rs:903
+#[verifier::spinoff_prover]
 
     pub fn try_years(self, years: i64) -> (r: Result<Span, Error>)
     requires
@@ -7283,6 +7394,7 @@ impl Span {
 
 impl Span {
 // @fn Span::try_months @src src/span.rs:918
+#[verifier::spinoff_prover]
 
     pub fn try_months(self, months: i64) -> (r: Result<Span, Error>)
     requires
@@ -7299,6 +7411,7 @@ impl Span {
 
 impl Span {
 // @fn Span::try_weeks @src src/span.rs:934
+#[verifier::spinoff_prover]
 
     pub fn try_weeks(self, weeks: i64) -> (r: Result<Span, Error>)
     requires
@@ -7315,6 +7428,7 @@ impl Span {
 
 impl Span {
 // @fn Span::try_days @src src/span.rs:950
+#[verifier::spinoff_prover]
 
     pub fn try_days(self, days: i64) -> (r: Result<Span, Error>)
     requires
@@ -7331,6 +7445,7 @@ impl Span {
 
 impl Span {
 // @fn Span::try_hours @src src/span.rs:966
+#[verifier::spinoff_prover]
 
     pub fn try_hours(self, hours: i64) -> (r: Result<Span, Error>)
     requires
@@ -7347,6 +7462,7 @@ impl Span {
 
 impl Span {
 // @fn Span::try_minutes @src src/span.rs:982
+#[verifier::spinoff_prover]
 
     pub fn try_minutes(self, minutes: i64) -> (r: Result<Span, Error>)
     requires
@@ -7363,6 +7479,7 @@ impl Span {
 
 impl Span {
 // @fn Span::try_seconds @src src/span.rs:998
+#[verifier::spinoff_prover]
 
     pub fn try_seconds(self, seconds: i64) -> (r: Result<Span, Error>)
     requires
@@ -7379,6 +7496,7 @@ impl Span {
 
 impl Span {
 // @fn Span::try_milliseconds @src src/span.rs:1015
+#[verifier::spinoff_prover]
 
     pub fn try_milliseconds(
         self,
@@ -7399,6 +7517,7 @@ impl Span {
 
 impl Span {
 // @fn Span::try_microseconds @src src/span.rs:1037
+#[verifier::spinoff_prover]
 
     pub fn try_microseconds(
         self,
@@ -7419,6 +7538,7 @@ impl Span {
 
 impl Span {
 // @fn Span::try_nanoseconds @src src/span.rs:1066
+#[verifier::spinoff_prover]
 
     pub fn try_nanoseconds(
         self,
@@ -7438,6 +7558,7 @@ impl Span {
 
 impl Span {
 // @fn Span::resign @src src/span.rs:3185
+#[verifier::spinoff_prover]
 
     pub fn resign(&self, units: impl RInto<NoUnits>, new: &Span) -> (r: Sign)
     requires
@@ -7451,6 +7572,7 @@ impl Span {
 }
 
 // @fn Span::resign::imp @src src/span.rs:3186
+#[verifier::spinoff_prover]
 pub fn imp(span: &Span, units: NoUnits, new: &Span) -> (r: Sign)
     requires
         span.wf(), -1 <= new.sign.val <= 1,
@@ -7489,6 +7611,7 @@ pub fn imp(span: &Span, units: NoUnits, new: &Span) -> (r: Sign)
 
 impl Span {
 // @fn Span::checked_mul @src src/span.rs:1494
+#[verifier::spinoff_prover]
 
     pub fn checked_mul(self, rhs: i64) -> (r: Result<Span, Error>)
     requires
@@ -7577,6 +7700,7 @@ impl Span {
 
 impl Span {
 // @fn Span::only_calendar @src src/span.rs:2981
+#[verifier::spinoff_prover]
 
     pub fn only_calendar(self) -> (r: Span)
     requires
@@ -7608,6 +7732,7 @@ impl Span {
 
 impl Span {
 // @fn Span::only_time @src src/span.rs:3004
+#[verifier::spinoff_prover]
 
     pub fn only_time(self) -> (r: Span)
     requires
@@ -7639,6 +7764,7 @@ impl Span {
 
 impl Span {
 // @fn Span::largest_unit @src src/span.rs:3125
+#[verifier::spinoff_prover]
 
     pub fn largest_unit(&self) -> (r: Unit)
     requires
@@ -7654,6 +7780,7 @@ impl Span {
 
 impl Span {
 // @fn Span::units @src src/span.rs:3131
+#[verifier::spinoff_prover]
 
     pub fn units(&self) -> (r: UnitSet)
     ensures
@@ -7665,6 +7792,7 @@ impl Span {
 
 impl Span {
 // @fn Span::try_units_ranged @src src/span.rs:2631
+#[verifier::spinoff_prover]
 
     pub fn try_units_ranged(
         self,
@@ -7700,6 +7828,7 @@ impl Span {
 
 impl Span {
 // @fn Span::try_days_ranged @src src/span.rs:2568
+#[verifier::spinoff_prover]
 
     pub fn try_days_ranged(
         self,
@@ -7718,6 +7847,7 @@ impl Span {
 
 impl Span {
 // @fn Span::try_hours_ranged @src src/span.rs:2577
+#[verifier::spinoff_prover]
 
     pub fn try_hours_ranged(
         self,
@@ -7736,6 +7866,7 @@ impl Span {
 
 impl Span {
 // @fn Span::try_minutes_ranged @src src/span.rs:2586
+#[verifier::spinoff_prover]
 
     pub fn try_minutes_ranged(
         self,
@@ -7754,6 +7885,7 @@ impl Span {
 
 impl Span {
 // @fn Span::try_seconds_ranged @src src/span.rs:2595
+#[verifier::spinoff_prover]
 
     pub fn try_seconds_ranged(
         self,
@@ -7772,6 +7904,7 @@ impl Span {
 
 impl Span {
 // @fn Span::try_milliseconds_ranged @src src/span.rs:2604
+#[verifier::spinoff_prover]
 
     pub fn try_milliseconds_ranged(
         self,
@@ -7790,6 +7923,7 @@ impl Span {
 
 impl Span {
 // @fn Span::try_microseconds_ranged @src src/span.rs:2613
+#[verifier::spinoff_prover]
 
     pub fn try_microseconds_ranged(
         self,
@@ -7808,6 +7942,7 @@ impl Span {
 
 impl Span {
 // @fn Span::try_nanoseconds_ranged @src src/span.rs:2622
+#[verifier::spinoff_prover]
 
     pub fn try_nanoseconds_ranged(
         self,
@@ -7826,6 +7961,7 @@ impl Span {
 
 impl Span {
 // @fn Span::without_lower @src src/span.rs:3063
+#[verifier::spinoff_prover]
 
     pub fn without_lower(self, unit: Unit) -> (r: Span)
     requires
@@ -7870,6 +8006,7 @@ impl Span {
 
 impl Span {
 // @fn Span::fieldwise @src src/span.rs:1450
+#[verifier::spinoff_prover]
 
     pub fn fieldwise(self) -> (r: SpanFieldwise)
     ensures
